@@ -302,6 +302,9 @@ def run(ctx):
             for t in (targets[0], targets[len(targets) // 2]):
                 tag_sweep(ctx, vfs, t, range(0, 140) if ctx.quick else range(0, 1200), (0, 1, 81, 3600, 86400, 172800.5, 864000))
                 tag_sweep(ctx, vfs, t, (121, 202, 133, 512, 1000, 1001, 65536), range(0, 200))
+                # file times around New Year (week-based and calendar years differ there), a leap day, the epoch's first days
+                for base in (1735516800.0, 1609286400.0, 1451520000.0, 1709164800.0, 86400.0 * 3):
+                    tag_sweep(ctx, vfs, t, (7,), (0, 3600, 86400, 2 * 86400, 3 * 86400, 4 * 86400, 40 * 86400), base=base)
                 ctx.case(("tag-sweep", t[0]))
         else:
             ctx.mon("tag-sweep", 0)
@@ -320,7 +323,7 @@ def run(ctx):
         set_zone("UTC")
 
 
-def tag_sweep(ctx, vfs, t, sizes, offsets):
+def tag_sweep(ctx, vfs, t, sizes, offsets, base=1_700_000_000.0):
     """many (size, modification second) states of one file: a validator handed out for one state must not revalidate another.
     Every state is served once; when two states were given the same entity tag the two-step history is replayed to show the stale 304."""
     iface, app, url_path, file_path = t
@@ -329,7 +332,7 @@ def tag_sweep(ctx, vfs, t, sizes, offsets):
         with open(file_path, "wb") as f:
             f.write(b"s" * size)
         for off in offsets:
-            vfs.state[file_path] = {"m": 1_700_000_000.0 + off, "c": 1_700_000_000.0 + off}
+            vfs.state[file_path] = {"m": base + off, "c": base + off}
             st, h, body, exc = request(iface, app, url_path, [])
             ctx.mon("tag-sweep")
             if st != 200 or exc is not None:
